@@ -251,14 +251,14 @@ ROUND10 = {
 }
 # engines and rule families added in the session of round 11 (DESIGN 8.5, round 11)
 ROUND11 = {
- "C05": "E13 waited-channel-stable for the per-connection senders (from C19)",
+ "C05": "E13 waited-channel-stable for the per-connection senders (from C19); per-connection channels not shared (from C10)",
  "C08": "E13 waited-channel-stable for xstar/xbus (from C19; found D17)",
  "C18": "E13 waited-channel-stable (from C19)",
  "C19": "E13 WAITED-CHANNEL-STABLE: every channel-typed field some function parks on (blocking receive/send/select arm read from the field) is replaced only in a step that wakes the waiters (close of a channel of the same object or of the old channel, Broadcast; must-pass to every return), during construction (fresh object, fresh-parameter helpers), or - for send-only waiters - with the old queue drained (found D17)",
- "C10": "E12 nil-safety (from C12)",
- "C11": "E12 nil-safety (from C12)",
+ "C10": "E12 nil-safety (from C12); channels installed in waited-on fields are made by the installing function (E13 channels-not-shared: queues and close channels are never handed from one object to another)",
+ "C11": "E12 nil-safety (from C12); E3 slice-alias: a guarded slice field with an in-place writer is not walked through a copy of its header outside the guard",
  "C12": "E12 NILSAFE: forward must-non-nil dataflow per function over the fields the module itself treats as optional (nil tests / nil stores) and over maps not made at every creation, with entry facts from all call sites and closure creations (greatest fixpoint), kill on calls that may clear, error-checked results, companion fields and correlated merges",
- "C16": "E12 nil-safety on every peer-driven function",
+ "C16": "E12 nil-safety on every peer-driven function; per-connection channels not shared (from C10)",
  "C20": "E12 nil-safety on macat (the socket exists only behind the test in Run)",
 }
 for k, (t, x) in EXTRA.items():
